@@ -21,7 +21,7 @@ CHECK_DEADLOCK FALSE
 INVARIANTS %s
 """
 INVS = ["ArtefactsAgree", "VocabularyMatchesGrammar", "RuleBodiesMatchATN", "ListenerCallbacksExist",
-        "ParserSkeletonsAgree", "ContextsCarryTheirRule", "GeneratedListenersMatchRules"]
+        "ParserSkeletonsAgree", "ContextsCarryTheirRule", "GeneratedListenersMatchRules", "ConstantsNumberTheVocabulary"]
 
 # ---- the generated recursive-descent code, read as text: one "skeleton" per package
 GEN = {"go": ("pkg/go/gen/openfga_parser.go", ["pkg/go/gen/openfgaparser_listener.go", "pkg/go/gen/openfgaparser_base_listener.go"]),
@@ -102,6 +102,19 @@ def explain(recs, inv):
             for t in toks:
                 if t["lines"] != toks[0]["lines"]:
                     out.append("%s .tokens of %s differs from %s" % (a, t["lang"], toks[0]["lang"]))
+    elif inv == "ConstantsNumberTheVocabulary":
+        for a in ("lexer", "parser"):
+            v = next(r for r in recs if r["kind"] == "replica" and r["artefact"] == a and r["lang"] == "go")
+            want = {(n, i) for i, n in enumerate(v["symbolic"]) if n}
+            if a == "parser":
+                want |= {("RULE_" + n, i) for i, n in enumerate(v["rules"])}
+            else:
+                g = next(r for r in recs if r["kind"] == "grammar" and r["artefact"] == "lexer")
+                want |= {(n, i) for i, n in enumerate(g["modes"]) if i > 0}
+            for c in (r for r in recs if r["kind"] == "constants" and r["artefact"] == a):
+                got = {(p[0], p[1]) for p in c["pairs"]}
+                if got != want:
+                    out.append("%s %s: exported constants differ from the vocabulary numbering: constants-only %s vocabulary-only %s" % (c["lang"], a, sorted(got - want)[:6], sorted(want - got)[:6]))
     elif inv == "VocabularyMatchesGrammar":
         for a in ("lexer", "parser"):
             g = next(r for r in recs if r["kind"] == "grammar" and r["artefact"] == a)
